@@ -335,11 +335,15 @@ func checkC11(c *Check) {
 			continue
 		}
 		c.Funcs[r.g.name] = true
-		n := emitObls(c, r.coll, "", map[string]string{"nopanic": "R11.1", "count": "R11.2", "write": "R11.3", "zero": "R11.4", "final": "R11.5"})
+		n := emitObls(c, r.coll, "", map[string]string{"nopanic": "R11.1", "count": "R11.2", "write": "R11.3", "zero": "R11.4", "final": "R11.5", "uncovered": "R11.8"})
 		if n < 8 {
 			c.Fail("R11.3", r.g.name+"#floor", "", "destination accesses of "+r.g.name+" are resolved", fmt.Sprintf("only %d obligations recorded", n))
 		}
 	}
+	c.RuleDoc["R11.6"] = "public entry points forward src and dst unchanged"
+	c.RuleDoc["R11.7"] = "CompressBlockBound(n) >= n + n/255 + 16"
+	c.RuleDoc["R11.8"] = "HC: no index or slice operation that can panic lies outside the deferred recover"
+	ruleBoundFormula(c, p, "R11.7")
 	// public wrappers forward unchanged
 	for _, w := range []struct{ rel, name, callee string }{{"", "Compressor.CompressBlock", "Compressor.CompressBlock"}, {"", "CompressorHC.CompressBlock", "CompressorHC.CompressBlock"}, {"internal/lz4block", "CompressBlock", "Compressor.CompressBlock"}, {"internal/lz4block", "CompressBlockHC", "CompressorHC.CompressBlock"}} {
 		fn := p.Func(w.rel, w.name)
@@ -368,6 +372,7 @@ func checkC11(c *Check) {
 				}
 			}
 		}
+		_ = 0
 		c.Cond(ok, "R11.6", shortFn(fn)+"#forwards-slices", p.Pos(fn.Pos()), "the public entry point hands src and dst to the compressor unchanged (the contract proven for the method holds for the caller's slices)", "src, dst forwarded as given", "src/dst are re-sliced or replaced before the call")
 	}
 }
@@ -524,6 +529,39 @@ func portableDecoderRulesImpl(c *Check, prefix string) {
 			y := g.val(a, b.Y)
 			g.coll.check("offset", g.siteKey(in, "offset-distance"), g.prog.InstrPos(in), "the 16-bit match offset is at least 1 where it is subtracted from a position", a.st.minGE(y, qi(1)), func() string { return "offset may be 0 here" })
 		},
+		onCopy: func(g *goProg, a *AbsState, call *ssa.Call, n Lin, dstOff, dstLen, srcOff, srcLen Lin, dstRoot, srcRoot string, srcHigh bool) {
+			// A copy within one buffer has memmove semantics, while an LZ4 match is defined byte by
+			// byte (an overlapping match replicates). Where the copy's count is not what advances the
+			// cursor (over-copying shortcuts, pattern doubling), the bytes that become final must not
+			// overlap their source: advance <= distance (or, with no separate advance, count <= distance).
+			if dstRoot != srcRoot || dstRoot == "" {
+				return
+			}
+			if refs := call.Referrers(); refs != nil && len(*refs) > 0 {
+				return // the count itself is consumed (the general match copy): not decided here
+			}
+			dist := dstOff.Sub(srcOff)
+			adv, what := n, "count"
+			if sl, isS := call.Call.Args[0].(*ssa.Slice); isS && sl.Low != nil {
+				blk := call.Block()
+				for _, in := range blk.Instrs[idxOf(call)+1:] {
+					if bo, isB := in.(*ssa.BinOp); isB && bo.Op == token.ADD && bo.X == sl.Low {
+						if _, _, isI := isIntType(bo.Y.Type()); isI {
+							if v, has := a.vals[vkey(bo.Y)]; has {
+								adv, what = v, "cursor advance "+bo.Y.Name()
+							} else if _, isK := bo.Y.(*ssa.Const); isK {
+								adv, what = g.val(a, bo.Y), "cursor advance"
+							}
+						}
+						break
+					}
+				}
+			}
+			g.coll.check("overlap", g.siteKey(call, "same-buffer-copy"), g.prog.InstrPos(call), "a copy inside "+dstRoot+" whose "+what+" makes bytes final does not overlap its source ("+what+" <= distance): Go's copy is a memmove, an LZ4 match is byte-wise", a.st.entailsLeq(adv, dist), func() string {
+				_, mx := a.st.max(adv.Sub(dist))
+				return fmt.Sprintf("%s %s may exceed the distance %s by %s (state from block %d): the tail of the match would come from stale destination bytes instead of the replicated pattern", what, adv.Str(g.tab), dist.Str(g.tab), mx.String(), a.from)
+			})
+		},
 		onReturn: func(g *goProg, a *AbsState, r *ssa.Return) {
 			if len(r.Results) != 1 {
 				return
@@ -629,10 +667,11 @@ func portableDecoderRulesImpl(c *Check, prefix string) {
 	case prefix == "R03":
 		emitObls(c, coll, "go|", map[string]string{"result": "R03.6", "write": "R03.6"})
 	case prefix == "R04":
-		emitObls(c, coll, "go|", map[string]string{"offset": "R04.1", "consumed": "R04.2"})
+		emitObls(c, coll, "go|", map[string]string{"offset": "R04.1", "consumed": "R04.2", "overlap": "R04.7"})
+		c.RuleDoc["R04.7"] = "portable decoder: same-buffer copies whose count is not the cursor advance do not overlap their source"
 		ruleDecoderErrorExits(c, p, fn, "R04.6")
 	default:
-		emitObls(c, coll, "go|", map[string]string{"result": prefix, "offset": prefix, "consumed": prefix})
+		emitObls(c, coll, "go|", map[string]string{"result": prefix, "offset": prefix, "consumed": prefix, "overlap": prefix})
 		ruleDecoderErrorExits(c, p, fn, prefix)
 	}
 }
